@@ -160,15 +160,21 @@ def miri(ctx):
     """C14 under Miri with many seeds (distinct schedules): data races, UB, uninitialised reads in the pure
     Rust part of the library (Miri cannot cross the C FFI of zstd or of the compressor crates)"""
     mdir = "/verif/miri"
-    seeds = 16
     t = time.time()
-    env = _env({"MIRIFLAGS": "-Zmiri-many-seeds=0..%d -Zmiri-disable-isolation" % seeds})
-    try:
-        p = subprocess.run(["cargo", "+nightly", "miri", "run", "--offline"], cwd=mdir, env=env, stdout=subprocess.PIPE,
-                           stderr=subprocess.PIPE, text=True, timeout=5400)
-    except subprocess.TimeoutExpired:
-        return dict(report={"status": "timeout"}, inconclusive=["miri: exceeded 5400 s"])
-    out = p.stdout + p.stderr
+    out, rc, seeds = "", 0, 0
+    # (input, seeds): the dictionary-using input costs minutes per seed under Miri, the Huffman-only one seconds
+    for which, n in (("huff", 16), ("fast", 4), ("dict", 8)):
+        env = _env({"MIRIFLAGS": "-Zmiri-many-seeds=0..%d -Zmiri-disable-isolation" % n, "PFV_MIRI_INPUT": which})
+        seeds += n
+        try:
+            p = subprocess.run(["cargo", "+nightly", "miri", "run", "--offline"], cwd=mdir, env=env, stdout=subprocess.PIPE,
+                               stderr=subprocess.PIPE, text=True, timeout=7200)
+        except subprocess.TimeoutExpired:
+            return dict(report={"status": "timeout", "input": which}, inconclusive=["miri: exceeded 7200 s on input %s" % which])
+        out += p.stdout + p.stderr
+        rc = rc or p.returncode
+    class P: pass
+    p = P(); p.returncode = rc
     ok_seeds = len(re.findall(r"MIRI-OK", out))
     errs = re.findall(r"error: (Undefined Behavior[^\n]*|[^\n]*[Dd]ata race[^\n]*|[^\n]*uninitialized[^\n]*|unsupported operation[^\n]*)", out)
     rep = {"status": "ran", "rc": p.returncode, "seeds_requested": seeds, "seed_runs_completed": ok_seeds,
